@@ -14,3 +14,25 @@ pub fn any_prefix1<const N: usize>(buf: &[u8; N]) -> &[u8] {
     kani::assume(n >= 1 && n <= N);
     &buf[..n]
 }
+
+/// Assumed contract of `core::slice::<impl [u8]>::is_ascii` (true iff every byte is < 0x80),
+/// used as a stub where the real word-at-a-time implementation over symbolic-length slices
+/// dominates the solver time.  `vk::is_ascii_contract` checks it against the real function.
+pub fn stub_is_ascii(s: &[u8]) -> bool {
+    let mut i = 0;
+    while i < s.len() {
+        if s[i] >= 0x80 {
+            return false;
+        }
+        i += 1;
+    }
+    true
+}
+
+#[kani::proof]
+#[kani::unwind(12)]
+pub fn is_ascii_contract() {
+    let p: [u8; 9] = kani::any();
+    macro_rules! case { ($($n:expr),*) => { $( assert!(p[..$n].is_ascii() == stub_is_ascii(&p[..$n]), "core/<[u8]>::is_ascii/true-iff-every-byte-below-0x80"); )* }; }
+    case!(0, 1, 7, 8, 9);
+}
